@@ -511,7 +511,29 @@ def skip_gradient_scale(ctx):
     ctx.check("R16.4", "gradient-scale", not bad and len(sub.obligations) >= 7, "skip-gradient-scaled", "src/network.rs", "%d facts: `loops` is written only by loopback" % len(sub.obligations))
 
 
+def connect_always_stores(ctx):
+    """`never silently discards`: every way through Network::connect that returns normally has stored the connection `into -> infrom` in
+    self.connect exactly once (a request is either rejected with a panic or honoured)"""
+    from .. import e6
+    c = ctx.crate
+    fn = ctx.fn("network::Network::connect")
+    E = e6.Exec(c, fn)
+    live = [p for p in E.run_fn() if p.exit is None or p.exit[0] == "return"]
+    ok = bool(live)
+    why = ""
+    for p in live:
+        ins = [e for e in p.eff if e[0] == "mut" and e[1].endswith("::insert") and isinstance(e[2], tuple) and e[2][0] == "field" and e[2][2] == "connect"]
+        good = len(ins) == 1 and len(ins[0][3]) == 2 and ins[0][3][0] == ("p", "into") and ins[0][3][1] == ("p", "infrom")
+        if not good:
+            ok = False
+            why = "a returning path stores %d connection(s) [%s]" % (len(ins), "; ".join(e6.show(t, 2) for (t, pol) in p.pc if pol)[:100])
+    ctx.check("R16.1", "connect:every-accepted-request-stored", ok and len(live) >= 8, "connection-silently-dropped:" + __import__("re").sub(r"#\w+", "", short(why, 70)), c.loc(fn),
+              "every returning path inserts (into -> infrom) once (%d paths)" % len(live),
+              "Network::connect: %s; a skip connection that is requested must be applied or rejected, never ignored" % why)
+
+
 def run(ctx):
+    ctx.guard("R16.1", "connect-stores", connect_always_stores, ctx)
     ctx.guard("R16.4", "gradient-scale", skip_gradient_scale, ctx)
     from .common import accumulation_setter
     ctx.guard("R16.3", "accumulation-setter", accumulation_setter, ctx, "R16.3")
